@@ -24,13 +24,27 @@ Lemma installed_table : forall r,
                 | RBound | RSlotsObj => IWrapper
                 | RCallableObj | RNcObj => IObj
                 | RNonCallable | RNcNonCallable => IPlain
-                | RNcSlots => ISlots
+                | RNcSlots => ISlots RefAttr
+                | RNcFrozen | RNcType => ISlots RefType
+                | RNcRaiser => ISlots RefOther
                 end.
 Proof. destruct r; reflexivity. Qed.
 
+(* only an object made by new_callable can reach __enter__ refusing attributes: whatever is given
+   as new= has been wrapped by _maybe_wrap_new *)
 Lemma wrapped_takes_attrs : forall r,
-  r <> RNcSlots -> inst_takes_attrs (installed r) = true.
-Proof. destruct r; intros H; try reflexivity. congruence. Qed.
+  per_activation r = false -> attach_failure (installed r) = None.
+Proof. destruct r; intros H; try reflexivity; discriminate H. Qed.
+
+Lemma attach_failure_spec : forall r,
+  attach_failure (installed r) =
+    match r with
+    | RNcSlots => Some E_ATTRIBUTE
+    | RNcFrozen | RNcType => Some E_TYPE
+    | RNcRaiser => Some E_RUNTIME
+    | _ => None
+    end.
+Proof. destruct r; reflexivity. Qed.
 
 (* ================================================================== calling conventions *)
 Section Conv.
@@ -194,36 +208,37 @@ Section Restore.
     (st' = st /\ r <> RDone)
     \/ (r = RDone /\ exists sp sv,
           specs w p = Some sp /\
-          st' = mkst (upd (own st) (ptarget sp) (Some (ONew p))) (upd (saved st) p (Some sv)) (active st) /\
-          forall t, undo sp sv (upd (own st) (ptarget sp) (Some (ONew p))) t = own st t).
+          st' = mkst (upd (own st) (ptarget sp) (Some (new_obj p (prk sp) (gen st p))))
+                     (upd (saved st) p (Some sv)) (active st) (upd (gen st) p (gen st p + 1)) /\
+          forall o, forall t, undo sp sv (upd (own st) (ptarget sp) (Some o)) t = own st t).
   Proof.
     intros st p st' r H. unfold enter in H.
     destruct (specs w p) as [sp|] eqn:Hs.
     2:{ inversion H; subst. left. split; [reflexivity|discriminate]. }
     destruct (own st (ptarget sp)) as [o|] eqn:Ho.
-    - destruct (inst_callable (installed (prk sp)) && negb (inst_takes_attrs (installed (prk sp)))).
+    - destruct (attach_failure (installed (prk sp))).
       + inversion H; subst. left. split; [reflexivity|discriminate].
       + inversion H; subst. right. split; [reflexivity|].
         exists sp, (Some o, true). repeat split.
-        intros t. unfold undo; cbn. unfold upd. destruct (Z.eqb_spec t (ptarget sp)); subst; auto.
+        intros o' t. unfold undo; cbn. unfold upd. destruct (Z.eqb_spec t (ptarget sp)); subst; auto.
     - destruct (inh w (ptarget sp)) as [o|] eqn:Hi.
       2:{ inversion H; subst. left. split; [reflexivity|discriminate]. }
-      destruct (inst_callable (installed (prk sp)) && negb (inst_takes_attrs (installed (prk sp)))).
+      destruct (attach_failure (installed (prk sp))).
       + inversion H; subst. left. split; [reflexivity|discriminate].
       + inversion H; subst. right. split; [reflexivity|].
         exists sp, (Some o, false). repeat split.
-        intros t. unfold undo; cbn. rewrite Hi. unfold upd. destruct (Z.eqb_spec t (ptarget sp)); subst; auto.
+        intros o' t. unfold undo; cbn. rewrite Hi. unfold upd. destruct (Z.eqb_spec t (ptarget sp)); subst; auto.
   Qed.
 
   (* invariant after a successful enter of p (not open), whether or not start() registers it *)
-  Lemma inv_push : forall base stk st p s sp sv,
+  Lemma inv_push : forall base stk st p s sp sv o gn,
     Inv base stk st -> ~ In p (map fst stk) -> specs w p = Some sp ->
-    (forall t, undo sp sv (upd (own st) (ptarget sp) (Some (ONew p))) t = own st t) ->
+    (forall t, undo sp sv (upd (own st) (ptarget sp) (Some o)) t = own st t) ->
     Inv base ((p, s) :: stk)
-        (mkst (upd (own st) (ptarget sp) (Some (ONew p))) (upd (saved st) p (Some sv))
-              (if s then active st ++ [p] else active st)).
+        (mkst (upd (own st) (ptarget sp) (Some o)) (upd (saved st) p (Some sv))
+              (if s then active st ++ [p] else active st) gn).
   Proof.
-    intros base stk st p s sp sv [I1 I2 I3 I4 I5] Hn Hs Hu. constructor; cbn.
+    intros base stk st p s sp sv o gn [I1 I2 I3 I4 I5] Hn Hs Hu. constructor; cbn.
     - intros t. rewrite Hs, upd_same. rewrite unwind_upd_notin by assumption.
       rewrite (unwind_ext _ _ _ (own st)) by assumption. apply I1.
     - constructor; assumption.
@@ -253,7 +268,7 @@ Section Restore.
   (* closing the innermost entry, given that _active_patches has already been adjusted to `l` *)
   Lemma inv_pop : forall base stk st p s l,
     Inv base ((p, s) :: stk) st -> l = act (saved st) stk ->
-    Inv base stk (fst (exit w (mkst (own st) (saved st) l) p)).
+    Inv base stk (fst (exit w (mkst (own st) (saved st) l (gen st)) p)).
   Proof.
     intros base stk st p s l [I1 I2 I3 I4 I5] Hl. cbn in *.
     inversion I2 as [|? ? Hn Hnd]; subst.
@@ -300,19 +315,19 @@ Section Restore.
     Inv base ((p, false) :: stk) st -> Inv base stk (fst (exit w st p)).
   Proof.
     intros base stk st p HI. pose proof HI as [I1 I2 I3 I4 I5]. cbn in I4.
-    destruct st as [o sv a]; cbn in *.
-    apply (inv_pop base stk (mkst o sv a) p false a HI). exact I4.
+    destruct st as [o sv a g]; cbn in *.
+    apply (inv_pop base stk (mkst o sv a g) p false a HI). exact I4.
   Qed.
 
   Lemma stop_live : forall base stk st p sp sv,
     Inv base ((p, true) :: stk) st -> specs w p = Some sp -> saved st p = Some sv ->
-    stop w st p = (mkst (undo sp sv (own st)) (upd (saved st) p None) (act (saved st) stk), RDone)
-    /\ Inv base stk (mkst (undo sp sv (own st)) (upd (saved st) p None) (act (saved st) stk)).
+    stop w st p = (mkst (undo sp sv (own st)) (upd (saved st) p None) (act (saved st) stk) (gen st), RDone)
+    /\ Inv base stk (mkst (undo sp sv (own st)) (upd (saved st) p None) (act (saved st) stk) (gen st)).
   Proof.
     intros base stk st p sp sv HI Hs Hv. pose proof HI as [I1 I2 I3 I4 I5]. cbn in I4.
     inversion I2 as [|? ? Hn Hnd]; subst.
     rewrite Hs, Hv in I4; cbn in I4.
-    assert (Hstop : stop w st p = (mkst (undo sp sv (own st)) (upd (saved st) p None) (act (saved st) stk), RDone)).
+    assert (Hstop : stop w st p = (mkst (undo sp sv (own st)) (upd (saved st) p None) (act (saved st) stk) (gen st), RDone)).
     { unfold stop. rewrite I4, remove1_last by (intro H; apply act_in in H; contradiction).
       unfold exit; cbn. rewrite Hs, Hv. destruct sv as [orig local]. reflexivity. }
     split; [exact Hstop|].
@@ -426,7 +441,7 @@ Section Restore.
         apply (IH base ((p, false) :: stk)); [|exact Hwb].
         destruct (enter_cases st p st' r He) as [[-> _]|[_ [sp [sv [Hs [-> Hu]]]]]].
         * apply inv_push_dead; assumption.
-        * apply (inv_push base stk st p false sp sv); assumption.
+        * apply (inv_push base stk st p false sp sv); auto.
       + destruct stk as [|[q [|]] r]; try discriminate Hwb.
         apply andb_prop in Hwb. destruct Hwb as [Hq Hwb]. apply Z.eqb_eq in Hq. subst q.
         cbn [step]. destruct (exit w st p) as [st' r'] eqn:He.
@@ -438,7 +453,7 @@ Section Restore.
         unfold start in He. destruct (enter w st p) as [st1 r1] eqn:He1.
         destruct (enter_cases st p st1 r1 He1) as [[-> Hr]|[-> [sp [sv [Hs [-> Hu]]]]]].
         * destruct r1; [congruence|]. inversion He; subst. apply inv_push_dead; assumption.
-        * inversion He; subst. cbn. apply (inv_push base stk st p true sp sv); assumption.
+        * inversion He; subst. cbn. apply (inv_push base stk st p true sp sv); auto.
       + destruct stk as [|[q [|]] r]; try discriminate Hwb.
         apply andb_prop in Hwb. destruct Hwb as [Hq Hwb]. apply Z.eqb_eq in Hq. subst q.
         cbn [step]. destruct (stop w st p) as [st' r'] eqn:He.
@@ -469,11 +484,12 @@ Section Restore.
 
   (* after a successful enter of p, own (target p) = ONew p *)
   Lemma enter_installs : forall st p st' sp,
-    enter w st p = (st', RDone) -> specs w p = Some sp -> own st' (ptarget sp) = Some (ONew p).
+    enter w st p = (st', RDone) -> specs w p = Some sp ->
+    own st' (ptarget sp) = Some (new_obj p (prk sp) (gen st p)) /\ gen st' p = gen st p + 1.
   Proof.
     intros st p st' sp He Hs.
     destruct (enter_cases st p st' RDone He) as [[_ H]|[_ [sp' [sv [Hs' [-> _]]]]]]; [congruence|].
-    assert (sp' = sp) by congruence. subst. cbn. apply upd_same.
+    assert (sp' = sp) by congruence. subst. cbn. split; apply upd_same.
   Qed.
 
   (* a failed enter leaves the state as it was (the repaired __enter__) *)
@@ -481,6 +497,111 @@ Section Restore.
   Proof.
     intros st p st' e He.
     destruct (enter_cases st p st' (RFail e) He) as [[H _]|[H _]]; [assumption|discriminate].
+  Qed.
+
+  (* an attribute-refusing product of new_callable: whatever the exception class of the refusal,
+     the activation leaves the state exactly as it was and re-raises that exception *)
+  Lemma enter_refusal : forall st p sp r,
+    specs w p = Some sp -> installed (prk sp) = ISlots r -> current w st (ptarget sp) <> None ->
+    enter w st p = (st, RFail (refusal_exn r)).
+  Proof.
+    intros st p sp r Hs Hi Hc. unfold enter, current in *. rewrite Hs.
+    destruct (own st (ptarget sp)) as [o|].
+    - rewrite Hi. reflexivity.
+    - destruct (inh w (ptarget sp)); [|congruence]. rewrite Hi. reflexivity.
+  Qed.
+
+  (* ---------------------------------------------------------------- object identity *)
+  (* no operation lowers a patcher's activation count *)
+  Lemma enter_gen_le : forall st p q, gen st q <= gen (fst (enter w st p)) q.
+  Proof.
+    intros st p q. destruct (enter w st p) as [st' r] eqn:He.
+    destruct (enter_cases st p st' r He) as [[-> _]|[_ [sp [sv [_ [-> _]]]]]]; cbn; [lia|].
+    unfold upd. destruct (Z.eqb_spec q p); subst; lia.
+  Qed.
+
+  Lemma exit_gen : forall st p, gen (fst (exit w st p)) = gen st.
+  Proof.
+    intros st p. unfold exit. destruct (specs w p); [|reflexivity].
+    destruct (saved st p) as [[orig local]|]; reflexivity.
+  Qed.
+
+  Lemma stop_gen : forall st p, gen (fst (stop w st p)) = gen st.
+  Proof.
+    intros st p. unfold stop. destruct (remove1 p (active st)); [|reflexivity].
+    rewrite exit_gen. reflexivity.
+  Qed.
+
+  Lemma stopall_loop_gen : forall k st, gen (fst (stopall_loop w k st)) = gen st.
+  Proof.
+    induction k as [|i IH]; intros st; cbn; [reflexivity|].
+    destruct (nth_error (active st) i) as [p|]; [|reflexivity].
+    pose proof (stop_gen st p) as H. destruct (stop w st p) as [st' [|e]]; cbn in H.
+    - rewrite IH. exact H.
+    - exact H.
+  Qed.
+
+  Lemma step_gen_le : forall st o q, gen st q <= gen (fst (step w st o)) q.
+  Proof.
+    intros st o q. destruct o as [p sty|p sty exc|p|p exc|exc|t args]; cbn [step].
+    - pose proof (enter_gen_le st p q). destruct (enter w st p). exact H.
+    - pose proof (exit_gen st p) as H. destruct (exit w st p). cbn in *. rewrite H. lia.
+    - pose proof (enter_gen_le st p q) as H. unfold start. destruct (enter w st p) as [s1 [|e]]; exact H.
+    - pose proof (stop_gen st p) as H. destruct (stop w st p). cbn in *. rewrite H. lia.
+    - pose proof (stopall_loop_gen (length (active st)) st) as H. unfold stopall.
+      destruct (stopall_loop w (length (active st)) st). cbn in *. rewrite H. lia.
+    - cbn. lia.
+  Qed.
+
+  Lemma exec_gen_le : forall ops st q, gen st q <= gen (exec w st ops) q.
+  Proof.
+    induction ops as [|o ops IH]; intros st q; [cbn; lia|].
+    rewrite exec_cons. pose proof (step_gen_le st o q). pose proof (IH (fst (step w st o)) q). lia.
+  Qed.
+
+  (* T reactivation: two successful activations of one patcher whose replacement is made per
+     activation (default mock / new_callable), with ANY op list in between, install two different
+     objects; an explicit new= object is installed again as the same object *)
+  Lemma reactivation_fresh : forall st p sp st1 ops st2,
+    specs w p = Some sp -> per_activation (prk sp) = true ->
+    enter w st p = (st1, RDone) -> enter w (exec w st1 ops) p = (st2, RDone) ->
+    own st2 (ptarget sp) <> own st1 (ptarget sp).
+  Proof.
+    intros st p sp st1 ops st2 Hs Hp H1 H2.
+    destruct (enter_installs st p st1 sp H1 Hs) as [E1 G1].
+    destruct (enter_installs _ p st2 sp H2 Hs) as [E2 _].
+    rewrite E1, E2. unfold new_obj. rewrite Hp.
+    pose proof (exec_gen_le ops st1 p). intro H0. inversion H0. lia.
+  Qed.
+
+  Lemma reactivation_same : forall st p sp st1 ops st2,
+    specs w p = Some sp -> per_activation (prk sp) = false ->
+    enter w st p = (st1, RDone) -> enter w (exec w st1 ops) p = (st2, RDone) ->
+    own st2 (ptarget sp) = own st1 (ptarget sp).
+  Proof.
+    intros st p sp st1 ops st2 Hs Hp H1 H2.
+    destruct (enter_installs st p st1 sp H1 Hs) as [E1 _].
+    destruct (enter_installs _ p st2 sp H2 Hs) as [E2 _].
+    rewrite E1, E2. unfold new_obj. rewrite Hp. reflexivity.
+  Qed.
+
+  (* every convention of a probe reaches the object that is in place NOW (never the object of an
+     earlier activation), or none is callable *)
+  Lemma probe_reaches_current : forall st t args cur cs,
+    probe w st t args = RProbe cur cs ->
+    cur = current w st t /\
+    forall c, In c cs -> c = CNotCallable \/ exists o recv b, cur = Some o /\ c = CReached o recv b.
+  Proof.
+    intros st t args cur cs H. unfold probe in H.
+    destruct (current w st t) as [o|]; [|inversion H; subst; split; [reflexivity|intros c []]].
+    destruct (obj_inst w o) as [[i b]|]; [|inversion H; subst; split; [reflexivity|intros c []]].
+    destruct (inst_callable i); [|inversion H; subst; split; [reflexivity|intros c []]].
+    injection H as <- <-. split; [reflexivity|].
+    intros c Hc. cbn [map all_convs In] in Hc.
+    destruct Hc as [<-|[<-|[<-|[<-|[]]]]];
+      match goal with |- context [dispatch Z SELF CLS i ?a ?cv args] =>
+        destruct (dispatch Z SELF CLS i a cv args) as [r|] end;
+      solve [right; exists o, r, b; auto | left; reflexivity].
   Qed.
 End Restore.
 
@@ -493,12 +614,29 @@ Proof. reflexivity. Qed.
 Example init_clean : forall tks, clean (init_state tks).
 Proof. intros. split; reflexivity. Qed.
 
+(* one patcher activated twice: the hypotheses of reactivation_fresh are satisfiable, the default
+   mock of the second activation is a new object and all four conventions reach it; an
+   attribute-refusing product of new_callable is refused with its own exception and nothing changes *)
+Example reactivation_example :
+  run_case [TMethod] [(0, RDefault, BRet)]
+           [OEnter 0 SDecor; OExit 0 SDecor false; OStart 0; OProbe 0 [7]; OStop 0 true]
+  = ([RO RDone; RO RDone; RO RDone;
+      RProbe (Some (ONew 0 1)) [CReached (ONew 0 1) [7] BRet; CReached (ONew 0 1) [7] BRet;
+                                CReached (ONew 0 1) [7] BRet; CReached (ONew 0 1) [7] BRet];
+      RO RDone], [Some (OOrig 0)], 0).
+Proof. reflexivity. Qed.
+
+Example refusal_example :
+  run_case [TModFn] [(0, RNcType, BRet); (0, RNcRaiser, BRet)] [OEnter 0 SWith; OStart 1; OStopAll false]
+  = ([RO (RFail E_TYPE); RO (RFail E_RUNTIME); RO RDone], [Some (OOrig 0)], 0).
+Proof. reflexivity. Qed.
+
 (* stopping in non-LIFO order is not well-bracketed, and indeed does not restore *)
 Example nonlifo_not_wb : wb [] [OStart 0; OStart 1; OStop 0 false; OStop 1 false] = false.
 Proof. reflexivity. Qed.
 Example nonlifo_not_restored :
   snd (fst (run_case [TModFn] [(0, RFunc, BRet); (0, RBound, BRet)]
-                     [OStart 0; OStart 1; OStop 0 false; OStop 1 false])) = [Some (ONew 0)].
+                     [OStart 0; OStart 1; OStop 0 false; OStop 1 false])) = [Some (ONew 0 0)].
 Proof. reflexivity. Qed.
 
 (* ================================================================== the bracket structure *)
